@@ -221,6 +221,33 @@ theorem join_groups_closed (segs : List Seg) (h : FreshInput segs) (hd : DegR (c
   exact joinAux_closed (compact segs).length (compact segs) [] (Nat.le_refl _) (compact_fresh segs h) hd
     (by intro ms hms; cases hms)
 
+/-- **each group is a whole connected component of the pieces**: no piece outside a group shares an end point
+    with a piece inside it. Together with `join_preserves_edges` (inside a group consecutive pieces are glued at
+    shared points) and `join_groups_closed`, the groups are exactly the closed chains of pieces that hang
+    together through shared end points — for pieces cut from vertex-disjoint simple rings, the rings. -/
+theorem join_groups_are_components (segs : List Seg) (h : FreshInput segs) (hd : DegR (compact segs))
+    (l1 : List (List Seg)) (g : List Seg) (l2 : List (List Seg)) (hout : join segs = l1 ++ g :: l2) :
+    ∀ p ∈ g.flatMap ends, p ∉ (l1 ++ l2).flatten.flatMap ends := by
+  intro p hp
+  have hperm := join_partitions_input segs h
+  have hcount := count_ends_of_norm_perm _ _ hperm p
+  have heven : EvenG g := by
+    have := joinAux_even (compact segs).length (compact segs) [] (Nat.le_refl _) (compact_fresh segs h) hd
+      (by intro ms hms; cases hms)
+    apply this
+    show g ∈ join segs
+    rw [hout]; simp
+  have hpos : 0 < (g.flatMap ends).count p := List.count_pos_iff.mpr hp
+  have hg2 : (g.flatMap ends).count p = 2 := by rcases heven p with e | e <;> omega
+  have htot := hd p
+  rw [hout] at hcount
+  have hsplit : ((l1 ++ g :: l2).flatten.flatMap ends).count p =
+      ((l1 ++ l2).flatten.flatMap ends).count p + (g.flatMap ends).count p := by
+    simp only [List.flatten_append, List.flatten_cons, List.flatMap_append, List.count_append]; omega
+  rw [hsplit] at hcount
+  have : ((l1 ++ l2).flatten.flatMap ends).count p = 0 := by omega
+  exact List.count_eq_zero.mp this
+
 /-- the condition holds for pieces cut from vertex-disjoint simple rings — every cut point is where exactly one piece
     ends and exactly one begins (start points pairwise distinct, and as a multiset equal to the stop points) —
     and it survives reversing any pieces and listing them in any order -/
